@@ -94,6 +94,16 @@ class TickRounding(Harness):
 
 
 # =================================================================================================
+class ScaledMarket(Market):
+    """user-written market: quotes its prices in another currency (factor 5/4)."""
+
+    def get_market_price(self, time=None):
+        return super().get_market_price(time) * 1.25
+
+    def get_fundamental_price(self, time=None):
+        return super().get_fundamental_price(time) * 1.25
+
+
 class IndexValues(Harness):
     name = "IndexValues"
     title = "real IndexMarket index computations over symbolic component prices"
@@ -107,17 +117,19 @@ class IndexValues(Harness):
 
     def cases(self, tier):
         out = [{"shares": i, "sym_shares": False} for i in range(len(self.share_sets))]
+        out.append({"shares": 1, "sym_shares": False, "subclass": True})
         out += [{"neg": "duplicate"}, {"neg": "no-shares"}]
         if tier == "thorough":
             out.append({"shares": 0, "sym_shares": True})
         return out
 
-    def _world(self, g, shares):
+    def _world(self, g, shares, subclass=False):
         from pams.simulator import Simulator
         sim = Simulator(prng=random.Random(0))
         comps = []
         for i, s in enumerate(shares):
-            m = Market(market_id=i, prng=random.Random(0), simulator=sim, name=f"C{i}")
+            cls = ScaledMarket if (subclass and i == len(shares) - 1) else Market
+            m = cls(market_id=i, prng=random.Random(0), simulator=sim, name=f"C{i}")
             st = {"tickSize": 1, "marketPrice": 100 * (i + 1)}
             if s is not None:
                 st["outstandingShares"] = s
@@ -145,7 +157,7 @@ class IndexValues(Harness):
                 g.note("nontrivial")
             return
         shares = list(self.share_sets[case["shares"]])
-        sim, comps, idx = self._world(g, shares)
+        sim, comps, idx = self._world(g, shares, subclass=case.get("subclass", False))
         if case["sym_shares"]:
             shares = [g.int(f"s{i}", 1, 10 ** 6) for i in range(len(shares))]
             for m, s in zip(comps, shares):
@@ -168,13 +180,13 @@ class IndexValues(Harness):
                 m._add_order(Order(agent_id=0, market_id=m.market_id, is_buy=True, kind=LIMIT_ORDER, volume=1, price=p))
                 m._add_order(Order(agent_id=1, market_id=m.market_id, is_buy=False, kind=LIMIT_ORDER, volume=1, price=p))
                 m._execution()
-                ps.append(p)
-                g.require(m.get_market_price() == p, "C17.harness:trade-sets-price")
+                ps.append(m.get_market_price())
+                g.require(Market.get_market_price(m) == p, "C17.harness:trade-sets-price")
                 # the index follows every price change inside the step
-                cur[i] = p
+                cur[i] = m.get_market_price()
                 g.require(aeq(idx.get_index() * sum(shares), sum(x * s_ for x, s_ in zip(cur, shares))),
                           "C17.index!=weighted-average-of-market-prices", f"after the trade on component {i} in step {t}")
-            hist.append((fs, ps))
+            hist.append(([m.get_fundamental_price() for m in comps], ps))
             tot = sum(shares)
             for tt, (fs_, ps_) in enumerate(hist):
                 wp = sum(p * s for p, s in zip(ps_, shares))
